@@ -191,6 +191,9 @@ func slotString(s slotT, content [][]byte) string {
 	if s.Gold == "run" {
 		gold = "run-time file"
 	}
+	if s.Gold == "link" {
+		gold = "symbolic link to an archive entry"
+	}
 	return fmt.Sprintf("%s %s=%q with %s=%q", op, src, content[s.C-1], gold, content[s.G-1])
 }
 
